@@ -17,6 +17,7 @@ RULE = (
     "(domain length 0..8 x forest 0..1) x HRESULT {0, 0x80070005, 0x80070002 with NULL pointer}. Oracle: x.pack() == reference bytes; X.unpack(x.pack()) == x; X.unpack(reference bytes) == x; non-zero "
     "HRESULT => ValueError. Distinct by (structure, field values)."
     ' Also the RFC 5114 group with one field altered at a time; and the GetKey stub as the CLIENT sends it (decoded by the reference DC) for blobs at L0 in {361,0,1} x 8 (L1,L2) positions with 0 at every level, sync and async, and for protect with / without root key id.'
+    ' String alphabets include case variants and case-folding traps of the algorithm names.'
 )
 ASSUME = ["ref/gkdi.py structure codecs calibrated on the captured structures in tests/data and the Windows blobs"]
 BOUND = {"quick": "pairs over reduced alphabets", "thorough": "pairs over the full alphabets, triples for the key identifier"}
